@@ -236,7 +236,7 @@ func main() {
 		return
 	}
 	kit.Main(&kit.Check{
-		ID: "C25", Level: "model_checking",
+		ID: "C25", Level: "model_checking", SlowIsNotHang: true,
 		Rule:          "scenario = (items, cores, failing item | failing input iterator position); per scenario every interleaving of dispatcher, workers, errgroup and consumer at the synchronisation points of the rewritten real code plus a yield inside the mapped function. VM family: the whole expression evaluated by api.Evaluate with Context.Cores>=2, compared with the same expression with map in place of map-parallel. Oracle: the sequence map-parallel yields is map's sequence (run sequentially on the same input), or a prefix of it followed by the error when map fails; the consumer always finishes.",
 		Assumptions:   []string{"code between two synchronisation operations runs atomically", "the consumer drains the iterator to its end (the statement does not cover abandoned iterators)"},
 		QuickDeadline: 200e9, ThoroughDeadline: 1500e9, CaseTimeout: 400e9, Chunk: 1, WorkerEnv: []string{"GOMAXPROCS=1"},
